@@ -25,7 +25,7 @@ var Rules = []report.Rule{
 	{ID: "V18", Floor: 40, Props: []string{"C20"}, Text: "every modifier-mode flow expansion (Params, Results, Concurrency, plain Tasks) discharges the same V1-V9/V16 obligations as its base-mode sibling: panic guard, error passthrough, ctx, dependency cover, wiring, results after Wait, Wait discipline"},
 	{ID: "V17", Floor: 300, Props: []string{"C12", "C18"}, Text: "the ran flags are sync/atomic values used only through their methods"},
 	{ID: "V8", Floor: 1000, Props: []string{"C05", "C06"}, Text: "exactly one unconditional Wait; no return between NewScheduler and Wait; no Enqueue after Wait"},
-	{ID: "T2", Floor: 1000, Props: []string{"C15", "C13", "C12"}, Text: "in every expanded variant every argument expression of the directive is referenced by the generated code (none is dropped: what only it names, an import, would be left unused) and a user expression is printed only as its hoisted variable; the raw expression text appears only in the prologue, as `<variable> := <raw>` once per recorded expression; no ast.Expr/types.Type value is printed bare"},
+	{ID: "T2", Floor: 1000, Props: []string{"C15", "C13", "C12", "C14"}, Text: "in every expanded variant every argument expression of the directive is referenced by the generated code (none is dropped: what only it names, an import, would be left unused) and a user expression is printed only as its hoisted variable; the raw expression text appears only in the prologue, as `<variable> := <raw>` once per recorded expression; no ast.Expr/types.Type value is printed bare; a type handed to the checking type printer is spelled in the generated code, not only in a comment (its nameability obligations would refuse well-formed directives for nothing)"},
 	{ID: "V14", Floor: 30, Props: []string{"C15", "C02"}, Text: "(regenerated corpora) the hoisted definitions at the head of the generated closure are exactly the argument expressions of the source directive — once each, in source order, with the source text — nothing else defines a hoisted name, and no generated identifier is in scope there"},
 	{ID: "V22", Floor: 30, Props: []string{"C20", "C15", "C02"}, Text: "(regenerated modifier-mode corpus) every argument expression of the directive is passed at the call site with its source text and order, through a helper that returns its parameters unchanged, and is bound once in the generated function's prologue to the name its source position determines; no option's parameter is ignored"},
 	{ID: "V15", Floor: 2, Props: []string{"C13"}, Text: "(regenerated corpora) every generated package type-checks without the cff tag, and no call of a code-generation directive remains in it"},
